@@ -51,41 +51,37 @@ theorem validate_eq_model (rv rc ev ec : List Rat) :
 theorem voicing_recall_eq_model (rv ev : List Rat) :
     Mir.Gen.melody.voicing_recall rv ev = numOf (voicingRecall rv ev) := by
   unfold Mir.Gen.melody.voicing_recall voicingRecall voicingRate numOf
-  cases rv with
-  | nil => rfl
-  | cons v rv =>
-    cases ev with
-    | nil => rfl
-    | cons w ev =>
-      simp only [PyM.len, List.length_cons, Nat.add_eq_zero_iff, one_ne_zero, and_false, decide_false, Bool.or_self,
-        Bool.false_eq_true, if_false, List.isEmpty_cons, PyMel.vmul_eq_bmul, PyMel.astypeFloat, List.map_map,
-        PyMel.rsum, decide_eq_true_eq, pure_eq, isVoiced, gt_iff_lt, Function.comp_def]
-      by_cases h0 : rsum (List.map (fun x => ind (decide (0 < x))) (v :: rv)) = 0
-      · simp only [h0, if_true]; rfl
-      · simp only [h0, if_false]
-        cases hb : bmul (w :: ev) (List.map (fun x => ind (decide (0 < x))) (v :: rv)) with
-        | error e => rfl
-        | ok p => simp only [ok_bind, PyMel.divNp_eq, PyMel.npDiv_of_ne h0, Except.map]
+  simp only [PyM.len, PyMel.isEmpty_eq, PyMel.vmul_eq_bmul, PyMel.astypeFloat_map, PyMel.rsum, decide_eq_true_eq, pure_eq,
+    isVoiced, gt_iff_lt, PyMel.zero_eq_rat, PyMel.zero_eq_nat]
+  by_cases hr : rv.length = 0
+  · simp only [hr, decide_true, Bool.true_or, Bool.or_true, if_true]; rfl
+  by_cases he : ev.length = 0
+  · simp only [he, decide_true, Bool.true_or, Bool.or_true, if_true]; rfl
+  simp only [hr, he, decide_false, Bool.or_self, Bool.false_eq_true, if_false]
+  by_cases h0 : rsum (List.map (fun x => ind (decide (0 < x))) rv) = 0
+  · simp only [h0, if_true]; rfl
+  · simp only [h0, if_false]
+    cases hb : bmul ev (List.map (fun x => ind (decide (0 < x))) rv) with
+    | error e => rfl
+    | ok p => simp only [ok_bind, PyMel.divNp_eq, PyMel.npDiv_of_ne h0, Except.map]
 
 /-- **`voicing_false_alarm` as translated = the hand model**, for ALL arrays (as above with `[ref == 0]`, default 0) -/
 theorem voicing_false_alarm_eq_model (rv ev : List Rat) :
     Mir.Gen.melody.voicing_false_alarm rv ev = numOf (voicingFalseAlarm rv ev) := by
   unfold Mir.Gen.melody.voicing_false_alarm voicingFalseAlarm voicingRate numOf
-  cases rv with
-  | nil => rfl
-  | cons v rv =>
-    cases ev with
-    | nil => rfl
-    | cons w ev =>
-      simp only [PyM.len, List.length_cons, Nat.add_eq_zero_iff, one_ne_zero, and_false, decide_false, Bool.or_self,
-        Bool.false_eq_true, if_false, List.isEmpty_cons, PyMel.vmul_eq_bmul, PyMel.astypeFloat, List.map_map,
-        PyMel.rsum, decide_eq_true_eq, pure_eq, isUnvoiced, Function.comp_def]
-      by_cases h0 : rsum (List.map (fun x => ind (decide (x = 0))) (v :: rv)) = 0
-      · simp only [h0, if_true]; rfl
-      · simp only [h0, if_false]
-        cases hb : bmul (w :: ev) (List.map (fun x => ind (decide (x = 0))) (v :: rv)) with
-        | error e => rfl
-        | ok p => simp only [ok_bind, PyMel.divNp_eq, PyMel.npDiv_of_ne h0, Except.map]
+  simp only [PyM.len, PyMel.isEmpty_eq, PyMel.vmul_eq_bmul, PyMel.astypeFloat_map, PyMel.rsum, decide_eq_true_eq, pure_eq,
+    isUnvoiced, gt_iff_lt, PyMel.zero_eq_rat, PyMel.zero_eq_nat]
+  by_cases hr : rv.length = 0
+  · simp only [hr, decide_true, Bool.true_or, Bool.or_true, if_true]; rfl
+  by_cases he : ev.length = 0
+  · simp only [he, decide_true, Bool.true_or, Bool.or_true, if_true]; rfl
+  simp only [hr, he, decide_false, Bool.or_self, Bool.false_eq_true, if_false]
+  by_cases h0 : rsum (List.map (fun x => ind (decide (x = 0))) rv) = 0
+  · simp only [h0, if_true]; rfl
+  · simp only [h0, if_false]
+    cases hb : bmul ev (List.map (fun x => ind (decide (x = 0))) rv) with
+    | error e => rfl
+    | ok p => simp only [ok_bind, PyMel.divNp_eq, PyMel.npDiv_of_ne h0, Except.map]
 
 /-- **`voicing_measures` as translated = the hand model**: validation first (`ValueError`), then the two rates -/
 theorem voicing_measures_eq_model (rv ev : List Rat) :
@@ -116,17 +112,18 @@ theorem raw_pitch_accuracy_eq_model (rv rc ev ec : List Rat) (tol : Rat) :
   have hev : ev.length = rv.length := l0.symm
   simp only [if_true, ok_bind, Bool.and_self, PyMel.logicalAnd, PyMel.vsub, PyMel.vmulMask, PyMel.bcast_eq_len,
     PyMel.getMask_eq_len, PyMel.length_select, List.length_map, List.length_zipWith, hrc, hec, hev, Nat.min_self]
-  simp only [PyMel.nzMask_def, PyMel.nzMask_comm, PyMel.pitch_chain, PyMel.countTrue_nzMask, PyMel.rsum, PyM.len,
-    pitchAccCore, PyMel.isEmpty_eq, hrc, hec, hev, pure_eq, withinTol, Except.map, decide_eq_true_eq]
-  by_cases hc : (decide (rv.length = 0) || decide (rsum rv = 0) || decide (rv.length = 0) || decide (rv.length = 0)) = true
-  · simp only [hc, if_true]
-  · simp only [hc, if_false]
-    by_cases hn : nonzeroCount rc ec = 0
-    · simp only [hn, if_true, Bool.false_eq_true, if_false, ite_self]
-    · have h0 : rsum rv ≠ 0 := by
-        intro h; apply hc; simp [h]
-      simp only [hn, if_false, Bool.false_eq_true, PyMel.divNp_eq, PyMel.npDiv_of_ne h0]
-      rfl
+  simp only [PyMel.nzMask_def, PyMel.nzMask_swap ec rc, PyMel.absdiff_swap ec rc, PyMel.pitch_chain,
+    PyMel.countTrue_nzMask, PyMel.rsum, PyM.len, pitchAccCore, PyMel.isEmpty_eq, hrc, hec, hev, pure_eq, withinTol,
+    Except.map, decide_eq_true_eq, PyMel.zero_eq_rat, PyMel.zero_eq_nat]
+  by_cases hn0 : rv.length = 0
+  · simp only [hn0, decide_true, Bool.true_or, Bool.or_true, if_true]
+  by_cases h0 : rsum rv = 0
+  · simp only [h0, decide_true, Bool.true_or, Bool.or_true, if_true]
+  simp only [hn0, h0, decide_false, Bool.or_self, Bool.false_eq_true, if_false]
+  by_cases hn : nonzeroCount rc ec = 0
+  · simp only [hn, if_true]
+  · simp only [hn, if_false, PyMel.divNp_eq, PyMel.npDiv_of_ne h0]
+    rfl
 
 /-- **`raw_chroma_accuracy` as translated = the hand model**: the same with the distance folded by
     `d - 1200·floor(d/1200 + 0.5)` (= `chromaDist`) -/
@@ -146,20 +143,21 @@ theorem raw_chroma_accuracy_eq_model (rv rc ev ec : List Rat) (tol : Rat) :
   have hev : ev.length = rv.length := l0.symm
   simp only [if_true, ok_bind, Bool.and_self, PyMel.logicalAnd, PyMel.vsub, PyMel.vmulMask, PyMel.bcast_eq_len,
     PyMel.getMask_eq_len, PyMel.length_select, List.length_map, List.length_zipWith, hrc, hec, hev, Nat.min_self]
-  simp only [PyMel.nzMask_def, PyMel.nzMask_comm, List.map_map, PyMel.zipWith_map_self]
+  simp only [PyMel.nzMask_def, PyMel.nzMask_swap ec rc, PyMel.absdiff_swap ec rc, List.map_map, PyMel.zipWith_map_self]
   simp only [PyMel.pitch_chain, PyMel.countTrue_nzMask, PyMel.rsum, PyM.len,
-    pitchAccCore, PyMel.isEmpty_eq, hrc, hec, hev, pure_eq, Except.map, decide_eq_true_eq]
-  by_cases hc : (decide (rv.length = 0) || decide (rsum rv = 0) || decide (rv.length = 0) || decide (rv.length = 0)) = true
-  · simp only [hc, if_true]
-  · simp only [hc, if_false]
-    by_cases hn : nonzeroCount rc ec = 0
-    · simp only [hn, if_true, Bool.false_eq_true, if_false, ite_self]
-    · have h0 : rsum rv ≠ 0 := by
-        intro h; apply hc; simp [h]
-      simp only [hn, if_false, Bool.false_eq_true, PyMel.divNp_eq, PyMel.npDiv_of_ne h0]
-      first
-        | rfl
-        | (congr 4; funext d; simp only [Function.comp, chromaWithinTol, chromaDist, PyMel.floorR]; ring_nf)
+    pitchAccCore, PyMel.isEmpty_eq, hrc, hec, hev, pure_eq, Except.map, decide_eq_true_eq, PyMel.zero_eq_rat,
+    PyMel.zero_eq_nat]
+  by_cases hn0 : rv.length = 0
+  · simp only [hn0, decide_true, Bool.true_or, Bool.or_true, if_true]
+  by_cases h0 : rsum rv = 0
+  · simp only [h0, decide_true, Bool.true_or, Bool.or_true, if_true]
+  simp only [hn0, h0, decide_false, Bool.or_self, Bool.false_eq_true, if_false]
+  by_cases hn : nonzeroCount rc ec = 0
+  · simp only [hn, if_true]
+  · simp only [hn, if_false, PyMel.divNp_eq, PyMel.npDiv_of_ne h0]
+    first
+      | rfl
+      | (congr 4; funext d; simp only [Function.comp, chromaWithinTol, chromaDist, PyMel.floorR]; ring_nf)
 
 /-- **`overall_accuracy` as translated = the hand model**, for ALL inputs: ratio = Σ[ref > 0] / Σ ref (0 when Σ ref = 0),
     (ratio · Σ ref·est·correct over the pitched frames + Σ (1 - [ref > 0])·(1 - est)) / number of frames — every NumPy-scalar
@@ -181,17 +179,16 @@ theorem overall_accuracy_eq_model (rv rc ev ec : List Rat) (tol : Rat) :
   simp only [if_true, ok_bind, Bool.and_self, PyMel.logicalAnd, PyMel.vsub, PyMel.vmul, PyMel.vmulMask, PyMel.bcast_eq_len,
     PyMel.getMask_eq_len, PyMel.length_select, List.length_map, List.length_zipWith, hrc, hec, hev, Nat.min_self,
     PyMel.astypeFloat_map]
-  simp only [PyMel.nzMask_def, PyMel.nzMask_comm, PyMel.oa_chain, PyMel.rsum, PyM.len, pure_eq, PyMel.unv_chain,
-    PyMel.voicedCount_def, decide_eq_true_eq, oaCore, PyMel.isEmpty_eq, hrc, hec, hev, Except.map]
-  by_cases hc : (decide (rv.length = 0) || decide (rv.length = 0) || decide (rv.length = 0) || decide (rv.length = 0)) = true
-  · simp only [hc, if_true]
-  · simp only [hc, if_false]
-    have hn : ((rv.length : Nat) : Rat) ≠ 0 := by
-      intro h; apply hc; simp at h; simp [h]
-    by_cases h0 : rsum rv = 0
-    · simp only [h0, if_true, PyMel.nmul_val, PyMel.nadd_val, PyMel.ndiv_val hn, Bool.false_eq_true, if_false]
-    · simp only [h0, if_false, PyMel.divNp_eq, PyMel.npDiv_of_ne h0, PyMel.nmul_val, PyMel.nadd_val, PyMel.ndiv_val hn,
-        Bool.false_eq_true]
+  simp only [PyMel.nzMask_def, PyMel.nzMask_swap ec rc, PyMel.absdiff_swap ec rc, PyMel.oa_chain, PyMel.rsum, PyM.len,
+    pure_eq, PyMel.unv_chain, PyMel.voicedCount_def, decide_eq_true_eq, oaCore, PyMel.isEmpty_eq, hrc, hec, hev, Except.map,
+    PyMel.zero_eq_rat, PyMel.zero_eq_nat]
+  by_cases hn0 : rv.length = 0
+  · simp only [hn0, decide_true, Bool.true_or, Bool.or_true, Bool.or_self, if_true]
+  have hn : ((rv.length : Nat) : Rat) ≠ 0 := by exact_mod_cast hn0
+  simp only [hn0, decide_false, Bool.or_self, Bool.false_eq_true, if_false]
+  by_cases h0 : rsum rv = 0
+  · simp only [h0, if_true, PyMel.nmul_val, PyMel.nadd_val, PyMel.ndiv_val hn]
+  · simp only [h0, if_false, PyMel.divNp_eq, PyMel.npDiv_of_ne h0, PyMel.nmul_val, PyMel.nadd_val, PyMel.ndiv_val hn]
 
 /-! ### `freq_to_voicing`, `constant_hop_timebase` -/
 
